@@ -318,7 +318,11 @@ class AdaptationManager(HasTraits):
 
         edges = []
 
-        for from_protocol_name, offers in self._adaptation_offers.items():
+        # Iterate over a copy: resolving a lazily specified protocol imports
+        # its module, which may register further offers.
+        for from_protocol_name, offers in list(
+            self._adaptation_offers.items()
+        ):
             from_protocol = offers[0].from_protocol
             mro_distance = self.mro_distance_to_protocol(
                 current_protocol, from_protocol
